@@ -114,7 +114,7 @@ def gen_spec(seed, index, tier):
         spec["steps"] = []
         return spec
     n = ops.randint(1, 8 if tier == "quick" else 12)
-    steps = history.gen_steps(ops, obj, n, malformed_rate=0.06, factor_decades=1.0,
+    steps = history.gen_steps(ops, obj, n, malformed_rate=0.06, bad_rate=0.06, factor_decades=1.0,
                               ext_range=(0.3 if cls == "Polyhedron" else 1e-2, 300.0))
     A = alphabet(cls)
     k = index // len(CLASSES)
@@ -244,6 +244,12 @@ def _execute(spec, world):
         if moved:
             C["ops_that_changed_geometry"] += 1
 
+        if r["outcome"] == "ok" and (st.get("arg") or {}).get("kind") == "bad" and not (
+                st.get("prop") == "radius" and st["arg"].get("bad") == "zero"):
+            # an invalid size target (0, negative, nan) was accepted: whether that is
+            # allowed is C08's question; the history is not continued from such a state
+            C["bad_target_accepted_not_judged_here"] += 1
+            break
         if r["outcome"] == "raised":
             exc = r["exc"]
             res["sets"]["refusals"].add("%s:%s:%s" % (cls, name, type(exc).__name__))
